@@ -54,7 +54,7 @@ Section Hier.
       + rewrite flat_map_map in Hr. apply in_flat_map in Hr as (v & _ & Hr). cbn [ground_rule] in Hr. destruct Hr as [E|[]]. injection E as _ <-.
         cbn [hier_rule b_pos b_neg]. split; intros a [].
     - rewrite flat_map_flat_map in Hr. apply in_flat_map in Hr as (x & Hx & Hr). destruct (Hcov x Hx) as (Hc & Hn).
-      destruct x as [c|? ? ? ?|required whenpart main wh|? ? ?|required neg v sv ov]; try destruct Hn.
+      destruct x as [c|? ? ? ?|required whenpart main wh|l vals y|required neg v sv ov]; try destruct Hn.
       + (* choice *)
         cbn [covered] in Hc. destruct Hc as (Hds & Hdo & _ & Hne & Hfe). destruct (ch_foreach c) as [e|] eqn:Efe.
         * destruct Hfe as (Hde & Hes & Heo). rewrite (each_ground s U c e Efe Hne Hes Heo) in Hr.
@@ -77,6 +77,8 @@ Section Hier.
           -- intros b [].
           -- intros b [<-|[]]. rewrite (level_concept s U _ y Hdo Hy). lia.
       + pose proof (cons_only_constraints s U required whenpart main wh r Hr) as Hk. destruct r; try destruct Hk. exact Logic.I.
+      + destruct y as [?|? ? ? ?|rq wp mn wh|? ? ?|? ? ? ? ?]; try destruct Hn.
+        destruct (oneof_rules_are_constraints s U l vals rq wp mn wh r Hr) as (b & ->). exact Logic.I.
       + pose proof (there_only_constraints s U required neg v sv ov r Hr) as Hk. destruct r; try destruct Hk. exact Logic.I.
   Qed.
 
